@@ -58,4 +58,3 @@ func Bump(msg []byte, off, width, delta int) []byte {
 	}
 	return out
 }
-
